@@ -893,6 +893,9 @@ func init() {
 			r.Set("wall_s:"+ep.name, time.Since(t0).Seconds())
 			r.Set("inputs:"+ep.name, len(inputs))
 		}
+		if r.Only() == "" || r.Only() == "keyflood" {
+			c08KeyFlood(r, e)
+		}
 		c08Clients(r, e)
 		r.CollectRaces(false, "")
 		r.Sample(map[string]any{"input_log": "every input is appended to $VERIF_SCRATCH/c08-inputs.log before it is sent", "example": "ntp-ip-listener nts-ext-length<4 23000000…"})
@@ -962,6 +965,104 @@ func c08QUICSentinel(e *c08Env) bool {
 // ISD-AS not seen before (so that every listener goroutine consults and fills its key cache at the
 // same time), followed by the sentinel. State shared between the listener goroutines without
 // synchronisation shows as a fatal error of the Go runtime (or as a race report in the evidence).
+// c08KeyFlood: unauthenticated datagrams must not make the listener's memory grow with their number.
+// A plain-build listener first receives a reference batch of datagrams that all claim one source
+// ISD-AS and carry a time-service authenticator option with a random MAC, then a batch of the same
+// size in which every datagram claims another source ISD-AS. Every 48 datagrams a sentinel is
+// awaited, so that the datagrams have been handled. The oracle compares the growth of the resident
+// set over the two batches: what the listener remembers per unauthentic datagram shows as the difference.
+func c08KeyFlood(r *ev.Run, e *c08Env) {
+	t, err := StartTargetEnv("plain", nil, "-ip", e.srv.String(), "-ip2", e.srv2.String(), "-kinds", "scion")
+	if err != nil {
+		r.Inconclusive("key flood: " + err.Error())
+		return
+	}
+	defer t.Kill()
+	uc, err := peer.NewUDPClient(e.cli)
+	if err != nil {
+		r.Inconclusive("key flood: " + err.Error())
+		return
+	}
+	defer uc.Close()
+	dst := netip.AddrPortFrom(e.srv, 10123)
+	rng := rand.New(rand.NewPCG(uint64(r.Seed()), 0xf100d))
+	p := &peer.SCIONPkt{SrcIA: c08RIA, DstIA: c08LIA, SrcHost: e.cli, DstHost: e.srv, SrcPort: uc.Local().Port(), DstPort: 10123,
+		Path: peer.SCIONPath(rng, 2), Payload: peer.NTPRequest(peer.UniqueTime64()), FlowID: 1}
+	p.E2E = []*slayers.EndToEndOption{peer.NewAuthOption(1<<17|1<<16|123, 0)}
+	for i := 12; i < len(p.E2E[0].OptData); i++ {
+		p.E2E[0].OptData[i] = byte(rng.IntN(256)) // a MAC that does not verify
+	}
+	base, err := p.Serialize()
+	if err != nil {
+		r.Inconclusive("key flood: " + err.Error())
+		return
+	}
+	sentinel := func() bool {
+		for a := 0; a < 60; a++ { // a sentinel lost in the flood is repeated after 50 ms
+			tx := peer.UniqueTime64()
+			b, _ := (&peer.SCIONPkt{SrcIA: c08LIA, DstIA: c08LIA, SrcHost: e.cli, DstHost: e.srv, SrcPort: uc.Local().Port(), DstPort: 10123, Payload: peer.NTPRequest(tx)}).Serialize()
+			if uc.Send(dst, b) != nil {
+				return false
+			}
+			t0 := time.Now()
+			_, hit := uc.ReadUntil(50*time.Millisecond, func(d peer.Datagram) bool { return peer.NTPOrigin(scionUnwrap(d.Data)) == tx })
+			if os.Getenv("VERIF_DEBUG") != "" {
+				fmt.Fprintf(os.Stderr, "keyflood sentinel attempt %d: hit=%v after %v\n", a, hit != nil, time.Since(t0))
+			}
+			if hit != nil {
+				return true
+			}
+		}
+		return false
+	}
+	n := r.Pick(300000, 3000000)
+	if v := os.Getenv("VERIF_KEYFLOOD_N"); v != "" {
+		fmt.Sscan(v, &n)
+	}
+	batch := func(distinct bool, salt uint64) (ok bool) {
+		b := append([]byte{}, base...)
+		for k := 0; k < n; k++ {
+			if distinct {
+				// source ISD-AS field of the address header (bytes 20..27): ISD 16 bits, AS 48 bits
+				binary.BigEndian.PutUint64(b[20:28], uint64(1+k%60000)<<48|(salt<<32|uint64(k)+1)&(1<<48-1))
+			}
+			_ = uc.Send(dst, b)
+			if k%48 == 47 && !sentinel() {
+				return false
+			}
+		}
+		return sentinel()
+	}
+	if !sentinel() {
+		r.Inconclusive("key flood: listener does not answer")
+		return
+	}
+	rssA := t.RSSBytes()
+	ok1 := batch(false, 0)
+	rssB := t.RSSBytes()
+	ok2 := ok1 && batch(true, uint64(r.Seed())&0xffff)
+	rssC := t.RSSBytes()
+	r.Eval(2 * int64(n))
+	fmt.Printf("key flood: %d datagrams per batch, resident set %d -> %d (one source ISD-AS) -> %d (distinct source ISD-ASes)\n", n, rssA, rssB, rssC)
+	w := map[string]any{"datagrams_per_batch": n, "rss_before": rssA, "rss_after_batch_with_one_source_isd_as": rssB, "rss_after_batch_with_distinct_source_isd_ases": rssC}
+	switch {
+	case !t.Alive():
+		first, frame := t.ExitInfo()
+		w["first_line"], w["stderr"] = first, t.Stderr()
+		r.Violation("scion-listener(service port)|panic:"+c08Sig(frame)+"|flood of unauthentic datagrams with authenticator options", "keyflood", w)
+	case !ok1 || !ok2:
+		w["goroutines"] = t.Dump()
+		r.Violation("scion-listener(service port)|hang|flood of unauthentic datagrams with authenticator options", "keyflood", w)
+	case (rssC-rssB)-(rssB-rssA) > int64(n)*64 && rssC-rssB > 24<<20:
+		// more than 64 bytes remembered per unauthentic datagram (and more than 24 MiB in total)
+		w["bytes_kept_per_datagram"] = (rssC - rssB - (rssB - rssA)) / int64(n)
+		r.Violation("scion-listener(service port)|memory-growth|unauthentic datagrams claiming distinct source ISD-ASes", "keyflood", w)
+	default:
+		r.Class("scion-listener(service port):memory-flat:flood of unauthentic datagrams claiming distinct source ISD-ASes")
+		r.Set("keyflood_rss_growth_bytes(reference,distinct)", []int64{rssB - rssA, rssC - rssB})
+	}
+}
+
 func c08Burst(r *ev.Run, ep *c08Endpoint, e *c08Env) {
 	var wg sync.WaitGroup
 	port := uint16(10123)
